@@ -126,6 +126,24 @@ func (w *worker) runCase(cfg Cfg, name string, next func(*view) (string, bool)) 
 	v := &view{}
 	orc.prev = in.snapshot()
 	v.snap = orc.prev
+	var batch []Req
+	var batchOps []string
+	flush := func() error {
+		if len(batch) == 0 {
+			return nil
+		}
+		b, err := in.doBatch(batch)
+		if err != nil {
+			return err
+		}
+		post := in.snapshot()
+		orc.afterBatch(b, post, in)
+		v.snap = post
+		res.ops = append(res.ops, batchOps...)
+		res.impl = append(res.impl, b.Lines...)
+		batch, batchOps = nil, nil
+		return nil
+	}
 	for {
 		op, ok := next(v)
 		if !ok {
@@ -135,13 +153,48 @@ func (w *worker) runCase(cfg Cfg, name string, next func(*view) (string, bool)) 
 			break
 		}
 		f := strings.Fields(op)
-		if len(f) < 3 || f[0] != "sess" {
+		if len(f) < 2 || f[0] != "sess" {
 			res.err = fmt.Errorf("bad op %q", op)
 			break
 		}
 		cs.Ops = append(cs.Ops, op)
+		if f[1] == "preq" {
+			r, err := parseReq(f[2:])
+			if err != nil {
+				res.err = err
+				return res
+			}
+			if len(batch) > 0 && batch[0].Conn != r.Conn {
+				if err := flush(); err != nil {
+					res.err = err
+					return res
+				}
+			}
+			batch = append(batch, r)
+			batchOps = append(batchOps, op)
+			v.nSteps++
+			if r.Method == "teardown" {
+				// A torn-down session stays registered until its routine has finished; a request that
+				// names it in that window is answered 400 "terminated" instead of 454.  The model has
+				// no such window: the harness lets the session finish before it goes on.
+				if err := flush(); err != nil {
+					res.err = err
+					return res
+				}
+			}
+			continue
+		}
+		if err := flush(); err != nil {
+			res.err = err
+			return res
+		}
 		var line string
 		switch f[1] {
+		case "sync":
+			post := in.snapshot()
+			line = post.String()
+			orc.prev = post
+			v.snap = post
 		case "open":
 			c, _ := strconv.Atoi(f[2])
 			ip := 0
@@ -190,6 +243,10 @@ func (w *worker) runCase(cfg Cfg, name string, next func(*view) (string, bool)) 
 		res.ops = append(res.ops, op)
 		res.impl = append(res.impl, line)
 		v.nSteps++
+	}
+	if err := flush(); err != nil {
+		res.err = err
+		return res
 	}
 	to := from + v.snap.opened
 	res.nontrivial = v.snap.opened > 0
@@ -374,6 +431,70 @@ func Run(c *corr.Ctx) {
 	depth := c.N(3, 4)
 	alpha := alphabet(true, false)
 	alphaWide := alphabet(true, true)
+	// pipelined: SETUP / ANNOUNCE first (so that there is a session to name), then every pair or triple
+	// of symbols written to the socket in one segment, then a sync
+	addPipelined := func(cfg Cfg, alpha []symbol, depth int, tag string) {
+		starts := []symbol{alpha[4], alpha[6], alpha[3], alpha[0]} // setup0-udp, setup0-tcp, announce, options
+		for si := range starts {
+			for first := range alpha {
+				si, first := si, first
+				jobs = append(jobs, func(w *worker, out func(caseResult)) {
+					for l := 2; l <= depth; l++ {
+						total := 1
+						for i := 1; i < l; i++ {
+							total *= len(alpha)
+						}
+						if l == depth && !c.Quick() {
+							// keep the full product in the thorough tier only
+						} else if l == depth {
+							total = len(alpha) * 4
+						}
+						for k := 0; k < total; k++ {
+							idx := make([]int, l)
+							idx[0] = first
+							x := k
+							if l == depth && c.Quick() {
+								x = k * 7919 // a spread sample of the product
+							}
+							for i := 1; i < l; i++ {
+								idx[i] = x % len(alpha)
+								x /= len(alpha)
+							}
+							names := []string{starts[si].name + ";"}
+							for i := 0; i < l; i++ {
+								names = append(names, alpha[idx[i]].name)
+							}
+							pos := -2
+							r := w.runCase(cfg, tag+":"+strings.Join(names, ","), func(v *view) (string, bool) {
+								switch {
+								case pos == -2:
+									pos++
+									return "sess open 0 0", true
+								case pos == -1:
+									pos++
+									op, _ := starts[si].op(v)
+									return op, true
+								case pos < l:
+									op, ok := alpha[idx[pos]].op(v)
+									if !ok {
+										return "skip", false
+									}
+									pos++
+									return strings.Replace(op, "sess req ", "sess preq ", 1), true
+								case pos == l:
+									pos++
+									return "sess sync", true
+								}
+								return "", false
+							})
+							r.dist[fmt.Sprintf("exhaustive:%s:len%d", tag, l)]++
+							out(r)
+						}
+					}
+				})
+			}
+		}
+	}
 	addExhaustive := func(cfg Cfg, alpha []symbol, depth int, tag string) {
 		for first := range alpha {
 			first := first
@@ -426,6 +547,7 @@ func Run(c *corr.Ctx) {
 		}
 	}
 	addExhaustive(fullCfg, alpha, depth, "exh")
+	addPipelined(fullCfg, alpha, 3, "exh-pipelined")
 	addExhaustive(fullCfg, alphaWide, depth-1, "exh-multiconn")
 	addExhaustive(Cfg{Mask: 255, UDP: false, NMedias: 2}, alpha, 2, "exh-noudp")
 	addExhaustive(Cfg{Mask: 255, UDP: true, Mcast: true, NMedias: 2}, alphabetMcast(), 3, "exh-mcast")
